@@ -11,16 +11,9 @@ from props.C09 import close, to_pval, assign, fmt_tables
 
 LEVEL = "proof"
 MODULE = "Phil.Props.C20"
-LEVEL_TEXT = ("Lean theorems about the index state machine (Phil.Index), generic over the merge kernel: after any history the "
-              "object handed out by get_python_object equals extract(working) (cache coherence; update_from_python under the "
-              "round-trip law extract(format p) = p of C09), pop_state restores the working set stored at the matching push, "
-              "set_state/pop invalidate the cache, and a refused edit changes nothing; applying the same edit twice is idempotent "
-              "under the kernel's idempotence law (C07). The machine instantiated with the Fetch model is tied to /repo by a "
-              "correspondence run over random histories (working text, cache flags, stack depth and handed-out object after "
-              "every operation); the oracle evaluates the four clauses of the statement on the implementation after every step.")
-LEVEL_NOTE = ("Masters are fully typed (the index requires it); every fourth has multiples nested in multiple scopes. "
-              "The style/menu half of the index is not modelled.")
-TECHNIQUE = "Lean 4 invariant proof over operation histories of an abstract state machine (refinement) + differential correspondence"
+LEVEL_TEXT = 'Lean theorems about the index state machine, every history: the handed-out object equals a fresh extraction of the working parameters (reachable_coherent), pop restores the working set of the matching push (pop_restores, balanced_stack), a refused edit changes nothing, same edit twice (same_edit_twice) — generic over the merge kernel under named laws, and with the laws discharged for the concrete kernel on flat masters (C20Concrete) and nested masters (C20Tree: refetch_exact_tree, pop_restores_tree, same_edit_twice_tree, reached_invariant_tree); the path index is inside the model: after any history the stored index equals reindex of the current working tree, every entry is a live object, nothing visited is missing (index_is_reindex(_scoped), entries_are_live, live_path_is_key, lookup_exact). Tied to /repo by a correspondence run over random histories (update / merge_phil string|object|file with and without only_scope, update_from_python, push / pop / set): working text, cache flags, stack depth, handed-out object and the whole _full_path_index (objects located by identity) after every operation; the oracle evaluates the four clauses after every step.'
+LEVEL_NOTE = 'On nested masters the idempotence law is proved for edits that name no .multiple parameter; elsewhere validated by correspondence. Known finding D37. The style/menu half of the index is not modelled.'
+TECHNIQUE = 'Lean 4 invariant proofs over operation histories of a state machine (refinement; path index included) + differential correspondence'
 RULE = ("fully typed masters x histories of 1-25 operations over {update(text[, only_scope]), merge_phil(string / object[, only_scope]), merge_param_file, update_from_python, "
         "push_state, pop_state, set_state, get_python_object} with edit texts generated from the master; non-trivial = the "
         "history contains an edit and a state operation; distinct = (master, history)")
